@@ -69,15 +69,18 @@ Fixpoint insert (x : nat) (l : list nat) : list nat :=
   match l with [] => [x] | y :: r => if x <=? y then x :: l else y :: insert x r end.
 Definition sort (l : list nat) : list nat := fold_right insert [] l.
 
-(* cell_ind_for_partial_update: the cell lists of the given modes are stacked and sorted
-   (NOT uniquified); the faces are the union *)
+Definition uniq_sorted (n : nat) (l : list nat) : list nat := filter (fun x => memb x l) (seq 0 n).
+
+(* cell_ind_for_partial_update: the cell lists of the given modes are stacked and
+   uniquified (np.unique; code after the repair `fix: cell_ind_for_partial_update returns
+   each cell once ...`, it used to sort only); the faces are the union *)
 Definition cell_ind_for_partial_update (g : grid) (cells faces nodes : option (list nat))
   : list nat * list nat :=
   let nf := length (face_nodes g) in
   let rc := match cells with Some c => stencil_cells g c | None => ([], []) end in
   let rf := match faces with Some f => stencil_faces g (snd rc) f | None => ([], []) end in
   let rn := match nodes with Some v => stencil_nodes g v | None => ([], []) end in
-  (sort (fst rc ++ fst rf ++ fst rn),
+  (uniq_sorted (length (cell_nodes g)) (fst rc ++ fst rf ++ fst rn),
    union_sorted nf (snd rc) (union_sorted nf (snd rf) (snd rn))).
 
 (* find_active_indices *)
@@ -99,7 +102,6 @@ Record subproblem := mksub {
   l2g_cells : list nat;          (* cells of the extracted subgrid (with overlap) *)
   l2g_faces : list nat }.        (* faces of the extracted subgrid *)
 
-Definition uniq_sorted (n : nat) (l : list nat) : list nat := filter (fun x => memb x l) (seq 0 n).
 
 (* subproblems(...) for a given cell partition vector (pp.partition.partition is external) *)
 Definition subproblems (g : grid) (num_part : nat) (part : list nat) : list subproblem :=
@@ -160,3 +162,20 @@ Definition tie_active (g : grid) (cells faces nodes : option (list nat))
                       (impl_cells impl_faces : list nat) : bool :=
   let r := find_active_indices g cells faces nodes in
   eqb_listN (fst r) impl_cells && eqb_listN (snd r) impl_faces.
+
+(* consistency of the incidence model of a grid (evaluated on every grid of the tie):
+   faces of a cell are numbered and their nodes are nodes of the cell, every face belongs
+   to a cell and has a node, node numbers are in range *)
+Definition grid_okb (g : grid) : bool :=
+  (length (cell_faces g) =? length (cell_nodes g))
+  && forallb (fun c => forallb (fun f => (f <? length (face_nodes g))
+                                       && subset (nth f (face_nodes g) []) (nth c (cell_nodes g) []))
+                               (nth c (cell_faces g) [])) (seq 0 (length (cell_nodes g)))
+  && forallb (fun f => existsb (fun c => memb f (nth c (cell_faces g) [])) (seq 0 (length (cell_nodes g)))
+                       && negb (length (nth f (face_nodes g) []) =? 0)) (seq 0 (length (face_nodes g)))
+  && forallb (fun c => forallb (fun v => v <? num_nodes g) (nth c (cell_nodes g) [])) (seq 0 (length (cell_nodes g))).
+
+
+Definition tie_sub_grid (g : grid) (num_part : nat) (part : list nat) (impl : list subproblem)
+                        (reps elim_sizes : list nat) : bool :=
+  grid_okb g && (length part =? length (cell_nodes g)) && tie_sub g num_part part impl reps elim_sizes.
